@@ -927,6 +927,8 @@ MUST = [
     "merge_index", "concat", "concat_proj", "concat_axis1", "binop_LL", "binop_filter_other", "where", "two_shifts", "two_diffs_frame",
     "shared_filter_sum", "shared_two_consumers",
     "concat_parts_axis1", "concat_parts_axis0", "add_parts_broadcast", "parts_of_elemwise", "parts_of_shuffle",
+    "parts_of_shift", "parts_of_diff_rev", "parts_of_cumsum",
+    "sort_b/filt_cum/id", "shuffle_b/filt_cum/id", "set_index_a/filt_cum/id", "sort_a_desc/filt_cum/col0",
     "nested_fused", "nested_fused_deps", "nested_fused_deps3", "upper_first_shared_stage", "stage_first_shared_stage",
     "assign_overwrite_shared", "assign_overwrite_concat", "two_reparts_up", "two_reparts_mixed", "two_reparts_size",
     "filt_a/filt_cum/id", "filt_or/filt_cum/col0", "filt_a/filt_cum/sum",
